@@ -67,7 +67,7 @@ pub fn shuffle<T>(r: &mut Rng, v: &mut Vec<T>) { for i in (1..v.len()).rev() { l
 // ---------------------------------------------------------------- builders
 // each returns the graph; node weight = abstract id, so the correspondence can be read back
 
-pub fn build_graph<Ty: EdgeType, Ix: petgraph::graph::IndexType>(a: &AbsGraph, r: &mut Rng) -> Graph<u32, i64, Ty, Ix> {
+pub fn build_graph_w<Ty: EdgeType, Ix: petgraph::graph::IndexType, W: Copy>(a: &AbsGraph, r: &mut Rng, cw: fn(i64) -> W) -> Graph<u32, W, Ty, Ix> {
     let mut g = Graph::default();
     let mut order: Vec<usize> = (0..a.n).collect();
     shuffle(r, &mut order);
@@ -75,11 +75,12 @@ pub fn build_graph<Ty: EdgeType, Ix: petgraph::graph::IndexType>(a: &AbsGraph, r
     for &i in &order { ix[i] = g.add_node(i as u32); }
     let mut es = a.edges.clone();
     shuffle(r, &mut es);
-    for (s, t, w) in es { g.add_edge(ix[s], ix[t], w); }
+    for (s, t, w) in es { g.add_edge(ix[s], ix[t], cw(w)); }
     g
 }
+pub fn build_graph<Ty: EdgeType, Ix: petgraph::graph::IndexType>(a: &AbsGraph, r: &mut Rng) -> Graph<u32, i64, Ty, Ix> { build_graph_w(a, r, |w| w) }
 
-pub fn build_stable<Ty: EdgeType, Ix: petgraph::graph::IndexType>(a: &AbsGraph, r: &mut Rng) -> StableGraph<u32, i64, Ty, Ix> {
+pub fn build_stable_w<Ty: EdgeType, Ix: petgraph::graph::IndexType, W: Copy>(a: &AbsGraph, r: &mut Rng, cw: fn(i64) -> W) -> StableGraph<u32, W, Ty, Ix> {
     let mut g = StableGraph::default();
     let mut order: Vec<usize> = (0..a.n).collect();
     shuffle(r, &mut order);
@@ -94,16 +95,17 @@ pub fn build_stable<Ty: EdgeType, Ix: petgraph::graph::IndexType>(a: &AbsGraph, 
     shuffle(r, &mut es);
     let mut dummy_edges = Vec::new();
     for (s, t, w) in es {
-        if r.chance(25) && !dummies.is_empty() { let d = dummies[r.below(dummies.len())]; dummy_edges.push(g.add_edge(ix[s], d, 77)); }
-        if r.chance(15) { dummy_edges.push(g.add_edge(ix[s], ix[t], 78)); }
-        g.add_edge(ix[s], ix[t], w);
+        if r.chance(25) && !dummies.is_empty() { let d = dummies[r.below(dummies.len())]; dummy_edges.push(g.add_edge(ix[s], d, cw(77))); }
+        if r.chance(15) { dummy_edges.push(g.add_edge(ix[s], ix[t], cw(78))); }
+        g.add_edge(ix[s], ix[t], cw(w));
     }
     for e in dummy_edges { g.remove_edge(e); }
     for d in dummies { g.remove_node(d); }
     g
 }
+pub fn build_stable<Ty: EdgeType, Ix: petgraph::graph::IndexType>(a: &AbsGraph, r: &mut Rng) -> StableGraph<u32, i64, Ty, Ix> { build_stable_w(a, r, |w| w) }
 
-pub fn build_graphmap<Ty: EdgeType>(a: &AbsGraph, r: &mut Rng) -> GraphMap<u32, i64, Ty, RandomState> {
+pub fn build_graphmap_w<Ty: EdgeType, W: Copy>(a: &AbsGraph, r: &mut Rng, cw: fn(i64) -> W) -> GraphMap<u32, W, Ty, RandomState> {
     // node value = 3*id + 1, inserted in a shuffled order; a removed-and-reinserted node scrambles positions
     let mut g = GraphMap::default();
     let mut order: Vec<usize> = (0..a.n).collect();
@@ -112,30 +114,33 @@ pub fn build_graphmap<Ty: EdgeType>(a: &AbsGraph, r: &mut Rng) -> GraphMap<u32, 
     for &i in &order { g.add_node(3 * i as u32 + 1); }
     let mut es = a.edges.clone();
     shuffle(r, &mut es);
-    for (s, t, w) in es { g.add_edge(3 * s as u32 + 1, 3 * t as u32 + 1, w); }
+    for (s, t, w) in es { g.add_edge(3 * s as u32 + 1, 3 * t as u32 + 1, cw(w)); }
     g.remove_node(9999);
     g
 }
+pub fn build_graphmap<Ty: EdgeType>(a: &AbsGraph, r: &mut Rng) -> GraphMap<u32, i64, Ty, RandomState> { build_graphmap_w(a, r, |w| w) }
 
-pub fn build_csr<Ty: EdgeType, Ix: petgraph::graph::IndexType>(a: &AbsGraph, r: &mut Rng) -> Csr<u32, i64, Ty, Ix> {
+pub fn build_csr_w<Ty: EdgeType, Ix: petgraph::graph::IndexType, W: Copy>(a: &AbsGraph, r: &mut Rng, cw: fn(i64) -> W) -> Csr<u32, W, Ty, Ix> {
     let mut g = Csr::new();
     for i in 0..a.n { g.add_node(i as u32); }
     let mut es = a.edges.clone();
     shuffle(r, &mut es);
-    for (s, t, w) in es { g.add_edge(Ix::new(s), Ix::new(t), w); }
+    for (s, t, w) in es { g.add_edge(Ix::new(s), Ix::new(t), cw(w)); }
     g
 }
+pub fn build_csr<Ty: EdgeType, Ix: petgraph::graph::IndexType>(a: &AbsGraph, r: &mut Rng) -> Csr<u32, i64, Ty, Ix> { build_csr_w(a, r, |w| w) }
 
-pub fn build_list<Ix: petgraph::graph::IndexType>(a: &AbsGraph, r: &mut Rng) -> List<i64, Ix> {
+pub fn build_list_w<Ix: petgraph::graph::IndexType, W: Copy>(a: &AbsGraph, r: &mut Rng, cw: fn(i64) -> W) -> List<W, Ix> {
     let mut g = List::new();
     for _ in 0..a.n { g.add_node(); }
     let mut es = a.edges.clone();
     shuffle(r, &mut es);
-    for (s, t, w) in es { g.add_edge(Ix::new(s), Ix::new(t), w); }
+    for (s, t, w) in es { g.add_edge(Ix::new(s), Ix::new(t), cw(w)); }
     g
 }
+pub fn build_list<Ix: petgraph::graph::IndexType>(a: &AbsGraph, r: &mut Rng) -> List<i64, Ix> { build_list_w(a, r, |w| w) }
 
-pub fn build_matrix<Ty: EdgeType, Ix: petgraph::graph::IndexType>(a: &AbsGraph, r: &mut Rng) -> MatrixGraph<u32, i64, RandomState, Ty, Option<i64>, Ix> {
+pub fn build_matrix_w<Ty: EdgeType, Ix: petgraph::graph::IndexType, W: Copy>(a: &AbsGraph, r: &mut Rng, cw: fn(i64) -> W) -> MatrixGraph<u32, W, RandomState, Ty, Option<W>, Ix> {
     let mut g = MatrixGraph::default();
     let mut order: Vec<usize> = (0..a.n).collect();
     shuffle(r, &mut order);
@@ -148,12 +153,13 @@ pub fn build_matrix<Ty: EdgeType, Ix: petgraph::graph::IndexType>(a: &AbsGraph, 
     let mut es = a.edges.clone();
     shuffle(r, &mut es);
     for (s, t, w) in es {
-        if r.chance(20) && !dummies.is_empty() { let d = dummies[r.below(dummies.len())]; g.update_edge(ix[s], d, 77); }
-        g.update_edge(ix[s], ix[t], w);
+        if r.chance(20) && !dummies.is_empty() { let d = dummies[r.below(dummies.len())]; g.update_edge(ix[s], d, cw(77)); }
+        g.update_edge(ix[s], ix[t], cw(w));
     }
     for d in dummies { g.remove_node(d); }
     g
 }
+pub fn build_matrix<Ty: EdgeType, Ix: petgraph::graph::IndexType>(a: &AbsGraph, r: &mut Rng) -> MatrixGraph<u32, i64, RandomState, Ty, Option<i64>, Ix> { build_matrix_w(a, r, |w| w) }
 
 // ---------------------------------------------------------------- the view dump
 
